@@ -133,6 +133,10 @@ func VStrategyState(lb *LoadBalancer) string { return strategyState(lb.strategy)
 
 func (k *kit) RequestMode(client, mode string) reqResult { return k.requestMode(client, mode) }
 
+// RequestCancelled sends a request whose context is already cancelled (the client hung up
+// before the balancer saw it).
+func (k *kit) RequestCancelled(client string) reqResult { return k.requestCancelled(client) }
+
 // EjectByNameFor ejects every listed backend of that name for the given window.
 func (k *kit) EjectByNameFor(name string, d time.Duration) {
 	for _, b := range k.lb.strategy.GetBackends() {
